@@ -1186,11 +1186,6 @@ theorem SessStep.noLoss {s s' : Session} (st : SessStep s s') :
 
 /-! ### What is transmitted next -/
 
-def Outbound.Step.state : Outbound.Step → SendState
-  | .control _ s => s
-  | .release _ _ s => s
-  | .retained _ _ _ s => s
-
 theorem sent_matches (ip : Bool) : SendState.sent.matchesPriority ip = false := by
   cases ip <;> rfl
 
@@ -1590,20 +1585,20 @@ theorem handlePacket_rejected_iff (d : SessionData) (r : Runtime) (p : Recv) (rc
 
 /-! ### Decoding an inbound PUBLISH -/
 
-theorem readU16_u16be (n : Nat) (r : Bytes) (h : n < 65536) : readU16 (u16be n ++ r) = some (n, r) := by
+theorem ex_readU16_u16be (n : Nat) (r : Bytes) (h : n < 65536) : readU16 (u16be n ++ r) = some (n, r) := by
   simp only [u16be, List.cons_append, List.nil_append, readU16, u16of, b_toNat, Option.some.injEq, Prod.mk.injEq, and_true]
   omega
 
-theorem takeN_append (s r : Bytes) : takeN (s ++ r) s.length = some (s, r) := by
+theorem ex_takeN_append (s r : Bytes) : takeN (s ++ r) s.length = some (s, r) := by
   simp [takeN]
 
-theorem readStr_enc (s r : Bytes) (hl : s.length < 65536) (hv : validUtf8 s = true) :
+theorem ex_readStr_enc (s r : Bytes) (hl : s.length < 65536) (hv : validUtf8 s = true) :
     readStr (u16be s.length ++ (s ++ r)) = some (s, r) := by
-  simp only [readStr, readU16_u16be _ _ hl, takeN_append, hv, if_true]
+  simp only [readStr, ex_readU16_u16be _ _ hl, ex_takeN_append, hv, if_true]
 
-theorem readPropBlock_enc (blk r : Bytes) (hl : blk.length ≤ MQTT_VARINT_MAX) :
+theorem ex_readPropBlock_enc (blk r : Bytes) (hl : blk.length ≤ MQTT_VARINT_MAX) :
     readPropBlock (encodeVarint blk.length ++ (blk ++ r)) = some (blk, r) := by
-  simp only [readPropBlock, decode_encode_varint _ _ hl, takeN_append]
+  simp only [readPropBlock, decode_encode_varint _ _ hl, ex_takeN_append]
 
 /-- The fixed-header flags of a PUBLISH. -/
 def publishFlags (retain : Bool) (qos : Nat) (dup : Bool) : Nat :=
@@ -1657,14 +1652,14 @@ theorem fromBuffer_brokerPublish (topic : Bytes) (id : Option Nat) (props payloa
   have hq3 : (qos = 3) = False := by simp; omega
   simp only [hq3, if_false]
   unfold brokerPublishBody
-  rw [readStr_enc _ _ htl htv]
+  rw [ex_readStr_enc _ _ htl htv]
   simp only []
   cases id with
   | none =>
     simp only [] at hid
     subst hid
     simp only [Nat.lt_irrefl, if_false, List.nil_append, gt_iff_lt]
-    rw [readPropBlock_enc _ _ hpl]
+    rw [ex_readPropBlock_enc _ _ hpl]
     simp only [hret, hdup]
     cases payload with
     | nil => rfl
@@ -1673,9 +1668,9 @@ theorem fromBuffer_brokerPublish (topic : Bytes) (id : Option Nat) (props payloa
     simp only [] at hid
     have hq0 : qos > 0 := hid.1
     simp only [hq0, if_true]
-    rw [readU16_u16be _ _ hid.2]
+    rw [ex_readU16_u16be _ _ hid.2]
     simp only [Option.map]
-    rw [readPropBlock_enc _ _ hpl]
+    rw [ex_readPropBlock_enc _ _ hpl]
     simp only [hret, hdup]
     cases payload with
     | nil => rfl
